@@ -206,6 +206,18 @@ def cases(tier, seed, shard, nshards):
                     dups.append([t, p.dup(how, p_ref(t)).i, how])
                 # continuation on both sides for builders
                 yield {"k": "fixed", "prog": p.prog(dialect=d), "dups": dups}
+    # continuations on a duplicate and on its original (the sibling vocabulary of C01): every call on one side leaves the other alone
+    from ..siblings import pair_specs
+    for di, d in enumerate(DIALECT_CLASSES):
+        for j, (fam, pn, an, bn) in enumerate(pair_specs(d)):
+            if an in ("render", "str", "hash", "copy") or bn in ("copy",):
+                continue
+            # quick: the diagonal (the same call on both sides) and one rotating off-diagonal partner, one dialect class per pair
+            if tier == "quick" and ((j + seed) % 6 != di or (an != bn and (hash_stable(an + bn) + seed) % 16)):
+                continue
+            k += 1
+            if k % nshards == shard:
+                yield {"k": "dup-pair", "d": d, "spec": [fam, pn, an, bn], "how": HOWS[k // nshards % 3]}
     n = (1500 if tier == "quick" else 100000) // nshards
     rnd = random.Random("C15:%d:%d" % (seed, shard))
     for i in range(n):
@@ -292,9 +304,19 @@ def run_zoo(case, mon):
     mon.nontrivial(["zoo", case["label"], how])
 
 
+def hash_stable(s_):
+    import zlib
+    return zlib.crc32(s_.encode())
+
+
 def run_case(case, mon):
     if case["k"] == "zoo":
         return run_zoo(case, mon)
+    if case["k"] == "dup-pair":
+        from ..siblings import dup_program
+        prog, dups, want = dup_program(case["d"], *case["spec"], case["how"])
+        case = dict(case, prog=prog, dups=dups, want=want)
+        mon.count("duplicate_continuation_programs")
     prog = case["prog"]
     d = prog["meta"]["dialect"]
     env = run(prog, d)
@@ -323,7 +345,9 @@ def run_case(case, mon):
         if dup in used and hasattr(o, "get_sql"):
             nontriv = True
     # the shared history monitor: every live object (originals and duplicates) equals its own rebuild
-    fs = check_history(prog, mon, prefix="after-dup:")
+    # (in the pair programs only the receiver, its duplicate and the continuations are judged: an un-aliased subquery argument may
+    #  legitimately receive its automatic alias)
+    fs = check_history(prog, mon, want=set(case["want"]) if case.get("want") else None, prefix="after-dup:")
     if fs is None:
         return
     for orig, dup, how in case["dups"]:
